@@ -182,6 +182,7 @@ def c01_rf18(run):
     rf_flow.rf18(run, units=('mir', 'gen'))
     run.min_instances('RF18', 40)
     rf_flow.rf33(run)
+    rf_flow.rf32(run)
 
 
 def c04_rf18(run):
